@@ -317,6 +317,7 @@ func Logger(logger *slog.Logger) Option {
 func (c *client) Close() {
 	c.closeOnce.Do(func() {
 		close(c.done)
+		vhook("close.doneClosed", c, nil)
 		if c.clientType == region.MasterClient {
 			if ac := c.adminRegionInfo.Client(); ac != nil {
 				ac.Close()
